@@ -1,6 +1,11 @@
-// C09 finding "projectQ.nonfiniteNewton.success_sound": projection reports SUCCESS with q = inf, qerr = NaN.
-// Slider along x; Rod of length 0.1 from the Ground point (0,5,0) to the body origin.  At q = 0 the Rod's Jacobian
-// d|p|/dq = q/|p| vanishes and the Rod cannot be satisfied at all (distance to the line is 5 > 0.1).
+// C09 finding "projectQ.nonfinite.success_sound": projection reports SUCCESS while the state is NaN.
+// Every accept/reject decision of projectQ/projectU is written as `norm > accuracy` (reject) — a NaN norm compares
+// false and falls through to `Succeeded`; with UseInfinityNorm, VectorBase::normInf even DROPS NaN elements
+// (`if (a > maxabs)`) and reports exit norm 0.
+// Deterministic trigger on the current tree: a Ball whose quaternion has length zero (normalisation = 0/0).
+// (Before /repo commit 00d38aae "FactorQTZ::solve left the solution uninitialized for a rank 0 matrix" the same
+//  outcome — Succeeded, q = inf, qerr = NaN, also through System::project(state, acc) without any exception — was
+//  reached from perfectly finite input: Slider along x, Constraint::Rod(Ground,(0,5,0), body,(0,0,0), 0.1) at q = 0.)
 // Build: g++ -std=c++17 -O2 -DNDEBUG <simbody include flags> C09_repro_nonfinite.cpp -lSimTKsimbody -lSimTKmath -lSimTKcommon
 #include "Simbody.h"
 #include <cstdio>
@@ -8,22 +13,20 @@ using namespace SimTK;
 int main() {
     MultibodySystem system; SimbodyMatterSubsystem matter(system);
     Body::Rigid body(MassProperties(1, Vec3(0), UnitInertia(1)));
-    MobilizedBody::Slider b1(matter.Ground(), Transform(), body, Transform());
-    Constraint::Rod(matter.Ground(), Vec3(0, 5, 0), b1, Vec3(0), 0.1);
+    MobilizedBody::Ball b1(matter.Ground(), Transform(), body, Transform());
     State s0 = system.realizeTopology(); system.realizeModel(s0);
-    { State s = s0;
-      try { system.project(s, 1e-6); std::printf("System::project(s,1e-6) returned normally (no exception)\n"); }
-      catch (const std::exception& e) { std::printf("System::project threw: %s\n", e.what()); }
-      system.realize(s, Stage::Position);
-      std::printf("  q = %g   qerr = %g\n", s.getQ()[0], s.getQErr()[0]); }
     for (int inf = 0; inf < 2; ++inf) {
-        State s = s0; system.realize(s, Stage::Position);
+        State s = s0; s.updQ() = Vector(4, 0.0);                 // zero-length quaternion
+        system.realize(s, Stage::Position);
         ProjectOptions o(1e-6); o.setOption(ProjectOptions::DontThrow); if (inf) o.setOption(ProjectOptions::UseInfinityNorm);
         ProjectResults r; Vector none;
         system.projectQ(s, none, o, r);
-        std::printf("projectQ(%s norm): status=%d (0=Succeeded) iterations=%d normOnEntrance=%g normOnExit=%g   q = %g   qerr = %g\n",
-                    inf ? "infinity" : "RMS", (int)r.getExitStatus(), r.getNumIterations(), r.getNormOnEntrance(), r.getNormOnExit(),
-                    s.getQ()[0], s.getQErr()[0]);
+        std::printf("projectQ(%s norm): status=%d (0=Succeeded) anyChange=%d normOnEntrance=%g normOnExit=%g  q = %g %g %g %g  qerr = %g\n",
+                    inf ? "infinity" : "RMS", (int)r.getExitStatus(), (int)r.getAnyChangeMade(), r.getNormOnEntrance(), r.getNormOnExit(),
+                    s.getQ()[0], s.getQ()[1], s.getQ()[2], s.getQ()[3], s.getQErr()[0]);
     }
+    { State s = s0; s.updQ() = Vector(4, 0.0);
+      try { system.project(s, 1e-6); std::printf("System::project(s,1e-6) returned normally (no exception); q[0] = %g\n", s.getQ()[0]); }
+      catch (const std::exception& e) { std::printf("System::project threw\n"); } }
     return 0;
 }
